@@ -94,6 +94,8 @@ func checkC05(w *World, r *Report) {
 	checkScannerProgress(w, r)
 	checkCountersAdvance(w, r)
 	checkRuneIndexBounds(w, r)
+	checkContextMapsAllocated(w, r)
+	checkFieldPathsTolerateNil(w, r)
 	checkOffsetProvenance(w, r, reach)
 
 	// R05.7
